@@ -15,8 +15,38 @@ RS = "core/src/socket/router_socket.rs"
 GLUE = """
 #[verifier::external_body]
 pub struct OwnedSemaphorePermit { x: u8 }
+// DashMap<usize, V> / mutex-protected HashMap<usize, V> keyed by pipe id: only the key set matters here
+pub struct PipeKeyed { pub keys: Ghost<Set<usize>> }
+impl PipeKeyed {
+  #[verifier::external_body]
+  pub fn remove(&mut self, k: &usize) -> (r: Option<usize>)
+    ensures final(self).keys@ == old(self).keys@.remove(*k), r is Some == old(self).keys@.contains(*k)
+  { unimplemented!() }
+}
+#[verifier::external_body]
+pub struct Opaque { x: u8 }
+impl Opaque {
+  #[verifier::external_body] pub async fn remove_peer_by_read_pipe(&mut self, p: usize) -> (r: ()) { unimplemented!() }
+  #[verifier::external_body] pub async fn remove_pipe(&mut self, p: usize) -> (r: ()) { unimplemented!() }
+  #[verifier::external_body] pub fn deregister_pipe(&mut self, p: usize) { unimplemented!() }
+  #[verifier::external_body] pub fn notify_waiters(&self) { unimplemented!() }
+  #[verifier::external_body] pub fn verif_fetch_sub(&self, n: usize) { unimplemented!() }
+}
 pub struct RouterSocket {
   pub current_send_target: Option<ActiveFragmentedSend>,   // R6t: TokioMutex<Option<ActiveFragmentedSend>>, every access under its guard
+  pub router_map_for_send: Opaque, pub pipe_send_coordinator: Opaque, pub ingress_engine: Opaque, pub identity_finalized_notify: Opaque, pub held_count: Opaque,
+  pub pipe_to_identity_shared_map: PipeKeyed,   // DashMap<usize, Blob>: which pipes have an identity label
+  pub pipe_finalized: PipeKeyed,                // DashMap<usize, ()>: the identity gate
+  pub pending_pipe_senders: PipeKeyed,          // Mutex<HashMap<usize, PipeMessageSender>>
+  pub held_ingress: PipeKeyed,                  // Mutex<HashMap<usize, VecDeque<FrameBatch>>>
+}
+impl RouterSocket {
+  // the pair invariant the receive path relies on (recv_logical_finalized + process_incoming_zmtp_message): a pipe that passes the identity
+  // gate has an identity label -- otherwise its messages would be labelled with the `pipe:N` placeholder
+  pub open spec fn gate_inv(&self) -> bool { forall|p: usize| self.pipe_finalized.keys@.contains(p) ==> #[trigger] self.pipe_to_identity_shared_map.keys@.contains(p) }
+  // R8: the block that reads core_state (endpoint uri and connection id of the pipe): arbitrary result
+  #[verifier::external_body]
+  pub fn verif_lookup_endpoint(&self, pipe_read_id: usize) -> (Option<String>, Option<usize>) { unimplemented!() }
 }
 // R8: `endpoint_uri_opt.as_deref() == Some(&active_info.target_endpoint_uri)` (Option<&str> against Option<&String>)
 #[verifier::external_body]
@@ -47,4 +77,24 @@ parts = [
 ]
 
 FNS = {p.name: p for p in parts if isinstance(p, Fn)}
-unit = Unit("routerfrag", ["C02"], parts, safety_props=["C02"], notes="ROUTER: a detach and the frame-by-frame send in progress")
+parts.append(
+  Fn(RS, "pipe_detached", impl=r"impl\s+ISocket\s+for\s+RouterSocket\b", emit_impl="impl RouterSocket", sig_sub=[("&self", "&mut self")], ret=None, rename="RouterSocket::pipe_detached_whole",
+     requires=["old(self).gate_inv()"],
+     ensures=[
+       ("C11:a_detached_pipe_has_neither_an_identity_label_nor_a_pass_through_the_identity_gate",
+        "!final(self).pipe_to_identity_shared_map.keys@.contains(pipe_read_id) && !final(self).pipe_finalized.keys@.contains(pipe_read_id) && !final(self).held_ingress.keys@.contains(pipe_read_id)"),
+       ("C11:gate_invariant_preserved_no_finalized_pipe_without_identity_label", "final(self).gate_inv()"),
+       ("C11:other_pipes_untouched", "forall|q: usize| q != pipe_read_id ==> (final(self).pipe_finalized.keys@.contains(q) == old(self).pipe_finalized.keys@.contains(q)) "
+                                      "&& (final(self).pipe_to_identity_shared_map.keys@.contains(q) == old(self).pipe_to_identity_shared_map.keys@.contains(q))"),
+       ("C02:a_detach_resets_the_fragmented_send_only_if_it_is_addressed_to_the_detached_connection",
+        "final(self).current_send_target != old(self).current_send_target ==> final(self).current_send_target is None"),
+     ],
+     extra=[("R8", re.compile(r"let \(endpoint_uri_opt, connection_id_opt\) = \{.*?\n    \};", re.S), "let (endpoint_uri_opt, connection_id_opt) = self.verif_lookup_endpoint(pipe_read_id);", 1),
+            ("R6t", re.compile(r"let mut active_frag_guard = self\.current_send_target\.lock\(\)\.await;\s*\n"), "", 1),
+            ("R6t", "&*active_frag_guard", "&self.current_send_target", "*"),
+            ("R6t", re.compile(r"\*active_frag_guard\s*=\s*"), "self.current_send_target = ", "*"),
+            ("R8", "endpoint_uri_opt.as_deref() == Some(&active_info.target_endpoint_uri)", "verif_uri_is(&endpoint_uri_opt, &active_info.target_endpoint_uri)", 1),
+            ("R6", "self.pending_pipe_senders.lock().remove(", "self.pending_pipe_senders.remove(", 1),
+            ("R6", re.compile(r"if let Some\(dropped\) = self\.held_ingress\.lock\(\)\.remove\(&pipe_read_id\) \{\s*if !dropped\.is_empty\(\) \{\s*self\.held_count\.fetch_sub\(dropped\.len\(\), Ordering::AcqRel\);\s*\}\s*\}", re.S),
+             "if let Some(dropped) = self.held_ingress.remove(&pipe_read_id) { self.held_count.verif_fetch_sub(dropped); }", 1)]))
+unit = Unit("routerfrag", ["C02", "C11"], parts, safety_props=["C02"], notes="ROUTER: a detach and the frame-by-frame send in progress")
